@@ -190,11 +190,16 @@ def body(case, rec):
                 S = SL(name)
                 N, M = len(test), len(trial)
                 with repo.quiet():
+                    # 'all' x 'all' is also requested through the default arguments (None = the mesh's leaves)
+                    a_test = None if (op['test'] == 'all' and op['trial'] == 'all' and op['workers'] % 2) else test
+                    a_trial = None if (op['trial'] == 'all' and (a_test is None or op['workers'] % 3 == 0)) and op['test'] == 'all' else trial
+                    if a_test is None:
+                        a_trial = None if op['workers'] % 4 else trial
                     if op['mp']:
                         with repo.pool_shim([slm], op['workers']):
-                            mat = S.bilform_matrix(test, trial, use_mp=True)
+                            mat = S.bilform_matrix(a_test, a_trial, use_mp=True)
                     else:
-                        mat = S.bilform_matrix(test, trial, use_mp=False)
+                        mat = S.bilform_matrix(a_test, a_trial, use_mp=False)
                 mat = np.asarray(mat)
                 want = np.array([[W.pair_value(S, name, te, tr) for tr in trial] for te in test], dtype=float)
                 path = 'inline' if N * M < 100 else ('pool' if op['mp'] else 'serial')
